@@ -616,7 +616,12 @@ pub async fn arun_read_script(
                 let r = handle.seek(sf).await;
                 out.push(r.map(|p| (p, vec![])).map_err(|e| format!("{:?}", e.kind())));
             }
-            ROp::Read(k, n) => {
+            ROp::ReadToEnd => {
+                let mut v = vec![];
+                let r = handle.read_to_end(&mut v).await;
+                out.push(r.map(|n| (n as u64, v)).map_err(|e| format!("{:?}", e.kind())));
+            }
+            ROp::Read(k, n) | ROp::ReadExact(k, n) => {
                 let want = read_size(*k, *n, len as usize);
                 let mut buf = vec![0u8; want];
                 let mut got = 0usize;
